@@ -1,6 +1,10 @@
 import Xrl.Lemmas.SplintSpec
 import Xrl.Spec.Interp
-import Xrl.Gen.Fns
+import Xrl.Gen.F_cross_sections
+import Xrl.Gen.F_scattering
+import Xrl.Gen.F_fi
+import Xrl.Gen.F_fii
+import Xrl.Gen.F_comptonprofiles
 /-!
 # C02 — interpolated quantities follow the shipped spline and never extrapolate
 
